@@ -247,7 +247,59 @@ def pool_prop(mod, prefixes, theorems, timed=False):
             "streams": [POOL_STREAM] + ([POOLT_STREAM] if timed else []),
             "rule": POOL_RULE, "assumes": POOL_ASSUMES}
 
+def srv_nontrivial(r):
+    ops = [o.strip() for o in r["input"].split(";")[1:]]
+    return sum(1 for o in ops if o.startswith("conn ")) >= 2
+
+def srv_dist(rs):
+    d = {"h1": 0, "auto": 0, "graceful": 0, "raw_acceptor": 0, "makefail": 0, "with_signal": 0, "with_cancelled_connect": 0,
+         "with_garbage": 0, "with_partial": 0, "with_sniff_partial": 0, "with_listener_loss": 0, "ended_ok": 0, "ended_err_accept": 0,
+         "ended_err_make": 0, "still_serving": 0, "signal_during_handler": 0}
+    for r in rs:
+        t = r["input"].split(";")
+        cfg = t[0].split()
+        ops = [o.strip() for o in t[1:]]
+        d[cfg[1]] += 1
+        d["graceful"] += cfg[2] == "1"; d["raw_acceptor"] += cfg[3] == "raw"; d["makefail"] += cfg[4] != "-"
+        d["with_signal"] += "signal" in ops
+        d["with_cancelled_connect"] += any(o.startswith("connx") for o in ops)
+        d["with_garbage"] += any(o.endswith("garbage") for o in ops)
+        d["with_partial"] += any(o.endswith(" half") for o in ops)
+        d["with_sniff_partial"] += any(o.endswith("prihalf") for o in ops)
+        d["with_listener_loss"] += "droplistener" in ops
+        last = r["obs"].split(";")[-1].split()[0]
+        d["ended_ok" if last == "OK" else "ended_err_accept" if last == "EA" else "ended_err_make" if last == "EM" else "still_serving"] += 1
+        if "signal" in ops:
+            k = ops.index("signal")
+            obs = [o.split() for o in r["obs"].split(";")]
+            if k > 0 and k < len(obs):
+                prev = obs[k - 1][1:]
+                d["signal_during_handler"] += any(int(c.split(".")[3]) > int(c.split(".")[1]) for c in prev)
+    return d
+
+SRV_STREAM = {"name": "srv", "quick": 4000, "thorough": 200000, "sep": ";", "batch": 4000,
+              "nontrivial": srv_nontrivial, "distribution": srv_dist}
+SRV_RULE = ("op sequences (connect, connect-then-give-up, complete / partial / rest-of / garbage request, partial HTTP/2 preface, "
+            "handler release, client disconnect, shutdown signal, listener loss) for up to 4 raw clients against the real Server "
+            "(HTTP/1 or auto-detecting; with and without graceful shutdown; raw DuplexIncoming or Acceptor-wrapped; make-service "
+            "failing at the k-th connection) under the paused clock, with all tasks run to quiescence after every op; ends with a "
+            "well-behaved probe client. non-trivial = at least 2 connections")
+SRV_ASSUMES = ["hyper's HTTP/1 server connection: one exchange at a time; after graceful_shutdown it finishes the exchange it "
+               "has started reading and closes; an idle one closes at once; garbage closes the connection (rules of Model/Server.lean)",
+               "tokio watch/mpsc semantics; all tasks run to quiescence after every op (coarser than arbitrary interleavings)",
+               "OS-level accept errors of TCP/Unix listeners and TLS handshakes are not exercised by this stream",
+               "HTTP/2 connections are only taken as far as the preface"]
+
 PROPS = {
+    "C07": {"props_module": "HdModel.Props.C07", "class_prefix": ["C07/"],
+            "theorems": ["Hd.Server.C07_signal_completes", "Hd.Server.C07_signal_first", "Hd.Server.C07_ended_stays", "Hd.Server.C07_no_accept_after",
+                         "Hd.Server.C07_all_told", "Hd.Server.C07_idle_closed", "Hd.Server.C07_inflight_kept",
+                         "Hd.Server.C07_inflight_completes", "Hd.Server.C07_partial_head_served"],
+            "streams": [SRV_STREAM], "rule": SRV_RULE, "assumes": SRV_ASSUMES},
+    "C09": {"props_module": "HdModel.Props.C09", "class_prefix": ["C09/"],
+            "theorems": ["Hd.Server.C09_only_three_exits", "Hd.Server.C09_isolation", "Hd.Server.C09_cancelled_connect_harmless",
+                         "Hd.Server.legitEnd_step", "Hd.Server.step_srv_cases"],
+            "streams": [SRV_STREAM], "rule": SRV_RULE, "assumes": SRV_ASSUMES},
     "C02": pool_prop("HdModel.Props.C02", ["C02/"], ["Hd.Pool.C02_single_delivery", "Hd.Pool.C02_delivered_not_idle",
         "Hd.Pool.C02_handback_only_when_ready", "Hd.Pool.C02_pop_not_busy", "Hd.Pool.C02_exec_marks_busy"]),
     "C03": pool_prop("HdModel.Props.C03", ["C03/"], ["Hd.Pool.C03_cancel_releases", "Hd.Pool.C03_owner_drop_cancels",
